@@ -10,7 +10,7 @@ JOIN_EXEC = "sqlgrep::execution::join::JoinedTableData::execute"
 ENGINE_EXEC = r"^sqlgrep::execution::execution_engine::ExecutionEngine::execute$"
 PRINT = r"^sqlgrep::executor::OutputPrinter::print$"
 LINES_NEXT = r"^<std::io::Lines<B> as core::iter::traits::iterator::Iterator>::next$"
-READERS_NEXT = r"^<alloc::vec::into_iter::IntoIter<T, A> as core::iter::traits::iterator::Iterator>::next$"
+READERS_NEXT = r"^<alloc::vec::(into_iter::IntoIter<T, A>|drain::Drain<'_, T, A>) as core::iter::traits::iterator::Iterator>::next$"
 FOLLOW_NEXT = r"^<sqlgrep::helpers::FollowFileIterator as core::iter::traits::iterator::Iterator>::next$"
 ENUM_NEXT = r"^<core::iter::adapters::enumerate::Enumerate<I> as core::iter::traits::iterator::Iterator>::next$"
 ANY_INPUT_NEXT = "|".join([LINES_NEXT, READERS_NEXT, FOLLOW_NEXT, ENUM_NEXT])
